@@ -42,9 +42,9 @@ impl<D, E> BodyWriter<D, E> {
     //@body
     //@end
 
-    //@fn src/gzip.rs :: impl BodyWriter :: fn gzipped props=C17
+    //@fn src/gzip.rs :: impl BodyWriter :: fn gzipped props=C09,C17
     fn gzipped(raw: chunker::Writer<D, E>, level: flate2::Compression) -> (r: Self)
-        ensures /*@C17 #gzip_writer*/ r.0 matches Inner::Gzipped(g) && g.inner() == raw && g.level() == level.level,
+        ensures /*@C09,C17 #gzip_writer*/ r.0 matches Inner::Gzipped(g) && g.inner() == raw && g.level() == level.level,
     //@body
     //@end
 
@@ -56,22 +56,24 @@ impl<D, E> BodyWriter<D, E> {
     //@body
     //@end
 
-    //@fn src/gzip.rs :: impl Write for BodyWriter :: fn write props=C08,C11 implicit=C08
+    //@fn src/gzip.rs :: impl Write for BodyWriter :: fn write props=C08,C09,C11 implicit=C08
     fn write(&mut self, buf: &[u8]) -> (r: io::Result<usize>)
         ensures
             /*@C11 #dead_writer_rejects_write*/ old(self).0 is Dead ==> r.is_err() && final(self).0 is Dead,
             /*@C11 #failed_write_kills_writer*/ r.is_err() ==> final(self).0 is Dead,
             /*@C08 #raw_write_is_chunker_write*/ old(self).0 matches Inner::Raw(w0) ==> (r.is_ok() ==> (final(self).0 matches Inner::Raw(w1) && w0.write_rel(buf@, r, w1))),
+            /*@C09 #gzip_write_is_encoder_write*/ old(self).0 matches Inner::Gzipped(g0) ==> (r.is_ok() ==> (final(self).0 matches Inner::Gzipped(g1) && g0.write_rel(buf@, r, g1))),
             /*@C17 #write_keeps_coding*/ r.is_ok() ==> (old(self).0 is Raw <==> final(self).0 is Raw) && (old(self).0 is Gzipped <==> final(self).0 is Gzipped),
     //@body
     //@end
 
-    //@fn src/gzip.rs :: impl Write for BodyWriter :: fn flush props=C08,C11 implicit=C08
+    //@fn src/gzip.rs :: impl Write for BodyWriter :: fn flush props=C08,C09,C11 implicit=C08
     fn flush(&mut self) -> (r: io::Result<()>)
         ensures
             /*@C11 #dead_writer_rejects_flush*/ old(self).0 is Dead ==> r.is_err() && final(self).0 is Dead,
             /*@C11 #failed_flush_kills_writer*/ r.is_err() ==> final(self).0 is Dead,
             /*@C08 #raw_flush_is_chunker_flush*/ old(self).0 matches Inner::Raw(w0) ==> (r.is_ok() ==> (final(self).0 matches Inner::Raw(w1) && w0.flush_rel(r, w1))),
+            /*@C09 #gzip_flush_is_encoder_flush*/ old(self).0 matches Inner::Gzipped(g0) ==> (r.is_ok() ==> (final(self).0 matches Inner::Gzipped(g1) && g0.flush_rel(r, g1))),
     //@body
     //@end
 }
@@ -132,7 +134,7 @@ impl StreamingBodyBuilder {
     //@body
     //@end
 
-    //@fn src/lib.rs :: impl StreamingBodyBuilder :: fn build props=C15,C17 implicit=C17
+    //@fn src/lib.rs :: impl StreamingBodyBuilder :: fn build props=C08,C09,C15,C17 implicit=C17
     fn build<D, E>(self) -> (r: (http::Response<crate::Body<D, E>>, Option<BodyWriter<D, E>>))
         requires self.chunk_size > 0,
         ensures
@@ -146,10 +148,10 @@ impl StreamingBodyBuilder {
             /*@C15 #head_headers_as_get unless=get_headers*/ !self.body_needed ==> r.0.extra.appended@ =~= (if self.should_gzip && self.gzip_level > 0 {
                     seq![(HeaderName::VARY, HV::Static("accept-encoding"@)), (HeaderName::CONTENT_ENCODING, HV::Static("gzip"@))]
                 } else { seq![(HeaderName::VARY, HV::Static("accept-encoding"@))] }),
-            /*@C17 #writer_coding_matches_header*/ r.1 matches Some(w) ==> (if self.should_gzip && self.gzip_level > 0 { w.0 matches Inner::Gzipped(g) && g.level() == self.gzip_level } else { w.0 is Raw }),
+            /*@C09,C17 #writer_coding_matches_header*/ r.1 matches Some(w) ==> (if self.should_gzip && self.gzip_level > 0 { w.0 matches Inner::Gzipped(g) && g.level() == self.gzip_level } else { w.0 is Raw }),
             /*@C15 #no_writer_for_head*/ r.1.is_some() == self.body_needed,
             /*@C15,C17 #status_and_builder_headers*/ r.0.v@.status == 200 && r.0.v@.hdrs.len() == 0,
-            /*@C08 #writer_feeds_this_body*/ r.1 matches Some(w) ==> (r.0.body.0 matches body::BodyStream::Chunker(rd) && match w.0 {
+            /*@C08,C09 #writer_feeds_this_body*/ r.1 matches Some(w) ==> (r.0.body.0 matches body::BodyStream::Chunker(rd) && match w.0 {
                     Inner::Raw(cw) => cw.paired_with(&rd) && cw.chunk_size() == self.chunk_size,
                     Inner::Gzipped(g) => g.inner().paired_with(&rd) && g.inner().chunk_size() == self.chunk_size,
                     Inner::Dead => false }),
